@@ -194,9 +194,16 @@ CLAIMS.update({
          "A.2 (C26)"),
 })
 
+CLAIMS.update({
+ "C27": ("dominance guard on the equality shortcut; governing-condition table of the hunk size counters; field lock-step of chunk.merge; AST mirror comparison of the edit-script base cases; finite-state exploration of the in-place chunk merge",
+         "Decides structural necessary conditions of the line diff: equal texts return the empty diff before anything is computed; hunk.add counts context and removed lines on the left and context and added lines on the right of the @@ header; chunk.merge adds del, ins and eq each; the len(a)==1 and len(b)==1 base cases of the recursion are mirror images; the in-place merge of chunks never overwrites unread chunks. It does not decide minimality of the script (Myers' middle snake), that unequal texts render a non-empty diff, or that hunks apply.",
+         "Minimality and hunk applicability are numerical/round-trip properties of runtime data and stay undecided; util/diff is used by tests only.",
+         "A.2 (C27), 6"),
+})
+
 NA = {
  "C26_unused": "(now claimed) graph algorithms (SCC order, closure, transposition, longest path) are statements about values computed by loops over runtime graphs; util/graph has no encoding, guard, pairing or ownership clause whose violation is visible in the shape of the code — no sound static necessary condition within reach",
- "C27": "minimality of a Myers edit script and applicability of rendered hunks are numerical/round-trip properties of runtime data; no structural clause to check statically",
+ "C27_unused": "(now claimed) minimality of a Myers edit script and applicability of rendered hunks are numerical/round-trip properties of runtime data; no structural clause to check statically",
 }
 
 ALL = ["C%02d" % i for i in range(1, 31)]
